@@ -6,6 +6,7 @@ CONSTANTS
   AdrLimit = 64
   AdrDelay = 32
   Region = "EU868"
+  SecondSmall = FALSE
   MaxDown = 1
 VIEW GView
 INVARIANTS Emit
